@@ -22,6 +22,30 @@ T = {
  "C10": ("Every legal character code at every position exhaustively plus random identifications, on TC1-4 (DF17/18) and BDS 2,0 (DF20/21) carriers, with a one-character metamorphic change.",
          "Annex 10 six-bit alphabet table in the check.",
          "property-based testing (Hypothesis) + exhaustive per-position enumeration, encode/decode round trip"),
+ "C11": ("Exhaustive sweep of every raw value x status x sign of all 34 Comm-B fields (BDS 1,0 1,7 4,0 4,4 4,5 5,0 5,3 6,0) with random contexts, judged against a Doc 9871 layout table; each decoder reached through commb.*, bdsXX.* and the deprecated aliases; context independence.",
+         "field table ref/doc9871.py written from ICAO Doc 9871; floats to 1e-9.",
+         "exhaustive enumeration with random contexts against a reference field table (encode/decode round trip)"),
+ "C13": ("Every field of TC28, TC29 subtype 0/1 and TC31 swept over all of its values with the remaining bits random, all position type codes x supplements x versions for the look-ups, monotonicity of bounds and label functions as self-contained cases; judged against DO-260A/B layout tables.",
+         "ref/do260.py layouts; label strings, reserved codes and supplement-dependent NIC of TC7/8 (v1) not asserted.",
+         "exhaustive per-field enumeration against reference layouts"),
+ "C15": ("Differential testing of py_common against the working-tree c_common.pyx run through a C-typing emulator (exhaustive for 13/11-bit codes, Hypothesis for frames, floats, addresses), calibration of the emulator against the pre-built binary, and every decoder incl. tell() run in two package copies bound to either module.",
+         "no Cython compiler exists on the image: the .pyx is observed through /verif/pyxemu (calibrated on the pinned source against the binary); C undefined behaviour is outside its model.",
+         "differential property-based testing (Hypothesis) + exhaustive enumeration between two build configurations"),
+ "C16": ("Generated Beast / AVR / Skysense streams (0x1A forced into every field) delivered under every single cut, all 1-byte pieces, drawn multi-cuts and every pair of cuts; output after each read compared with the expected frame list computed from the generating frames; NetSource forwarding with a stub pipe.",
+         "harness owns the chunking (buffer.extend + reader, as run() does); wall-clock time stamps ignored.",
+         "property-based testing (Hypothesis) with exhaustive segmentation enumeration against a reference framer"),
+ "C17": ("Rule-based state machine owning the clock: trajectories up to 600 kt across NL bands, equator and antimeridian, surface/airborne toggles, noise and Comm-B traffic, gaps around the 10 s / 60 s / 180 s thresholds; after every flush: no exception, listing model, Comm-B gating and attachment, upper/lower-case table equality, stored positions vs true positions.",
+         "CPR frames from ref/cpr.py; processes/sockets/curses of modeslive are not run; the harness owns timestamps and tnow.",
+         "stateful property-based testing (Hypothesis RuleBasedStateMachine) against a reference model"),
+ "C18": ("Uplink frames built from Annex 10 layouts with the uplink AP encoder; UF11 PR x IC x CL exhaustive, UF4/5/20/21 RR x DI x structured+random SD (exhaustive per DI in the thorough tier), every UF; uplink_fields cross-checked with the single-field functions.",
+         "uplink AP per Annex 10 3.1.2.3.3.2 in ref/crc24.py; IC for CL 5-7 and DI 2,4,5,6 unconstrained.",
+         "property-based testing (Hypothesis) + field-product enumeration, encode/decode round trip"),
+ "C19": ("Synthetic pulse-position-modulated sample buffers (1-4 frames, any offset, amplitude 0.3-1.4 with jitter, four noise shapes up to 10 dB below the pulses, corrupted DF17 decoys, consecutive buffers sharing the noise floor) through RtlReader._process_buffer on an instance made without hardware.",
+         "noise additionally capped at 0.19 (the preamble matcher takes any sample >= 0.2 as a pulse); frames lie inside their buffer.",
+         "property-based testing (Hypothesis) with a signal synthesiser as the reference encoder"),
+ "C20": ("Generated altitudes/speeds/Mach numbers and coordinate pairs (tropopause, sea level, antipodal, polar, antimeridian): ISA against an independent implementation and tabulated rows, inverse pairs, strict monotonicity, sea-level identities, orderings, haversine agreement, scalar/array metamorphic relation.",
+         "ref/isa.py; compressible round trips judged at 1e-6 relative.",
+         "property-based testing (Hypothesis): differential against a reference ISA, round-trip and metamorphic relations"),
  "C03": ("Generated even/odd airborne pairs from an independent DO-260B reference encoder, dense at every NL transition, pole, equator and antimeridian, all time and argument orders; decoded result compared with the encoded position of the newer frame.",
          "ref/cpr.py (encoder, NL table cross-checked with the printed DO-260B values); tolerance one quantisation step as the property states.",
          "property-based testing (Hypothesis), round trip through a reference CPR encoder"),
